@@ -77,6 +77,32 @@ var paramMutations = []func(r *Rng, s string) string{
 	func(r *Rng, s string) string { return s + ", " + s },
 	func(r *Rng, s string) string { return "(comment only)" },
 	func(r *Rng, s string) string { return "<>" },
+	// structural characters of RFC 822 / 2045 / 2047 / 2231 at random places, and pairs in the wrong order
+	func(r *Rng, s string) string {
+		const soup = "()<>[]:;@\\,.\"=?*'% \t"
+		b := []byte(s)
+		for k := 0; k < 1+r.Intn(4); k++ {
+			i := r.Intn(len(b) + 1)
+			b = append(b[:i], append([]byte{soup[r.Intn(len(soup))]}, b[i:]...)...)
+		}
+		return string(b)
+	},
+	func(r *Rng, s string) string {
+		pairs := [][2]string{{")", "("}, {">", "<"}, {"?=", "=?"}, {"]", "["}, {"\"", "\"\""}, {"(", "("}, {"(", ")"}, {"*=", "*0="}}
+		pr := pairs[r.Intn(len(pairs))]
+		switch r.Intn(4) {
+		case 0:
+			return pr[0] + s + pr[1]
+		case 1:
+			return s + " " + pr[0] + pr[1]
+		case 2:
+			return s + " " + pr[0] + " " + s + " " + pr[1] + " (set by gateway)"
+		}
+		i := r.Intn(len(s) + 1)
+		return s[:i] + pr[0] + s[i:] + pr[1]
+	},
+	func(r *Rng, s string) string { return s + " (comment)" },
+	func(r *Rng, s string) string { return s + " (unterminated" },
 }
 
 // parseEMLAny parses through one of the three entry points (string, reader, file), chosen by k
